@@ -25,6 +25,27 @@ func splitFile(file []byte) (*format.Header, []byte) {
 	return h, rest
 }
 
+// modelJoin: the edited header serialised by the MODEL's marshal (Format.marshal), not by the code under test —
+// an implementation serialiser that drops or rewrites something would otherwise hide the very edit being tried.
+func (c *Ctx) modelJoin(h *format.Header, payload []byte) []byte {
+	b := parseAll(c.model.Call("marshal", headerSx(h)))[0].bytes()
+	return append(b, payload...)
+}
+
+// macForModel: the header MAC an attacker holding the file key would compute, over the MODEL's serialisation.
+func (c *Ctx) macForModel(fileKey []byte, h *format.Header) []byte {
+	h2 := cloneHeader(h)
+	h2.MAC = make([]byte, 32)
+	b := parseAll(c.model.Call("marshal", headerSx(h2)))[0].bytes()
+	i := bytes.LastIndex(b, []byte("\n--- "))
+	k := hkdf.New(sha256.New, fileKey, nil, []byte("header"))
+	hk := make([]byte, 32)
+	io.ReadFull(k, hk)
+	m := hmac.New(sha256.New, hk)
+	m.Write(b[:i+4])
+	return m.Sum(nil)
+}
+
 func joinFile(h *format.Header, payload []byte) []byte {
 	var buf bytes.Buffer
 	h.Marshal(&buf)
@@ -160,7 +181,7 @@ func checkC03(c *Ctx) {
 		edit := func(kind string, f func(h *format.Header)) {
 			h2 := cloneHeader(h)
 			f(h2)
-			c.c03Try(kind, "header-edit-accepted:"+kind, file, joinFile(h2, payload), openers, in)
+			c.c03Try(kind, "header-edit-accepted:"+kind, file, c.modelJoin(h2, payload), openers, in)
 		}
 		for si := range h.Recipients {
 			si := si
@@ -314,12 +335,12 @@ func checkC03(c *Ctx) {
 					h2.Recipients = append(h2.Recipients[:pos], append(ins, h2.Recipients[pos:]...)...)
 					kind, sig := "insert-attacker-stanza", "header-edit-accepted:insert-attacker-stanza"
 					if remac {
-						h2.MAC = macFor(fresh, h2)
+						h2.MAC = c.macForModel(fresh, h2)
 						kind = "rekey"
 						// F11: inherent in unauthenticated public-key encryption
 						sig = "rekey-same-recipient"
 					}
-					c.c03Try(kind, sig, file, joinFile(h2, payload), []*party{p}, in)
+					c.c03Try(kind, sig, file, c.modelJoin(h2, payload), []*party{p}, in)
 				}
 			}
 		}
